@@ -9,6 +9,7 @@ EXTENDS Naturals, FiniteSets, TLC
 CONSTANTS Writers,     \* process names (strings) calling UDPMuxDefault.writeTo
           Aborters,    \* process names (strings) calling UDPMuxDefault.abortWrite
           ArmMayFail,  \* fault: SetWriteDeadline(now) may fail
+          ClearMayFail,\* fault: SetWriteDeadline(zero) may fail (once): the socket's deadline stays where it was
           Rounds       \* number of writes each writer performs
 VARIABLES st,      \* [n, b, a]  writeState: count, blocked bit, deadline-armed bit
           dl,      \* write deadline of the shared socket: "none" | "now"
@@ -17,32 +18,33 @@ VARIABLES st,      \* [n, b, a]  writeState: count, blocked bit, deadline-armed 
           left,    \* left[w]: writes writer w still has to start after the current one
           probe,   \* result of the probe write issued after everybody returned: "none" | "ok" | "timeout" | "stuck"
           hit,     \* history: writers that were in flight when an abort took effect (blocked bit set) since they entered
-          spur     \* history: some socket write timed out although no abort took effect while it was in flight
-vars == <<st, dl, pc, tmp, left, probe, hit, spur>>
+          spur,    \* history: some socket write timed out although no abort took effect while it was in flight
+          cfail    \* history: the socket refused to clear its deadline (from then on a timeout is the socket's doing)
+vars == <<st, dl, pc, tmp, left, probe, hit, spur, cfail>>
 Procs == Writers \cup Aborters
 S0 == [n |-> 0, b |-> FALSE, a |-> FALSE]
 PC0 == [p \in Procs |-> IF p \in Writers THEN "w_load" ELSE "a_load"]
 Init == st = S0 /\ dl = "none" /\ pc = PC0 /\ tmp = [p \in Procs |-> S0]
-        /\ left = [w \in Writers |-> Rounds - 1] /\ probe = "none" /\ hit = {} /\ spur = FALSE
+        /\ left = [w \in Writers |-> Rounds - 1] /\ probe = "none" /\ hit = {} /\ spur = FALSE /\ cfail = FALSE
 goto(p, l) == pc' = [pc EXCEPT ![p] = l] /\ UNCHANGED left
 \* a writer returns from writeTo: next write or done
 ret(p) == IF left[p] > 0 THEN pc' = [pc EXCEPT ![p] = "w_load"] /\ left' = [left EXCEPT ![p] = @ - 1]
           ELSE pc' = [pc EXCEPT ![p] = "done"] /\ UNCHANGED left
 load(p) == tmp' = [tmp EXCEPT ![p] = st]
 keepT == UNCHANGED tmp
-keepH == UNCHANGED <<hit, spur>>
+keepH == UNCHANGED <<hit, spur, cfail>>
 InFlightPCs == {"w_write", "f_load", "f_caslast", "f_cas"}
 
 \* ---- writer: startWriteContext
 WLoad(p) == keepH /\ pc[p] = "w_load" /\ load(p) /\ UNCHANGED <<st, dl, probe>>
             /\ IF st.b THEN goto(p, "w_load") ELSE goto(p, "w_cas")
-WCas(p) == pc[p] = "w_cas" /\ keepT /\ UNCHANGED <<dl, probe, spur>>
+WCas(p) == pc[p] = "w_cas" /\ keepT /\ UNCHANGED <<dl, probe, spur, cfail>>
            /\ IF st = tmp[p] THEN st' = [st EXCEPT !.n = @ + 1] /\ goto(p, "w_write") /\ hit' = hit \ {p}
                              ELSE UNCHANGED <<st, hit>> /\ goto(p, "w_load")
 \* ---- socket write: completes when no deadline is set, times out when the deadline is armed
 WWriteOk(p)  == keepH /\ pc[p] = "w_write" /\ dl = "none" /\ goto(p, "f_load") /\ UNCHANGED <<st, dl, tmp, probe>>
-WWriteTmo(p) == pc[p] = "w_write" /\ dl = "now"  /\ goto(p, "f_load") /\ UNCHANGED <<st, dl, tmp, probe, hit>>
-                /\ spur' = (spur \/ p \notin hit)
+WWriteTmo(p) == pc[p] = "w_write" /\ dl = "now"  /\ goto(p, "f_load") /\ UNCHANGED <<st, dl, tmp, probe, hit, cfail>>
+                /\ spur' = (spur \/ (p \notin hit /\ ~cfail))
 \* ---- finishWrite
 FLoad(p) == keepH /\ pc[p] = "f_load" /\ load(p) /\ UNCHANGED <<st, dl, probe>>
             /\ IF st.n = 0 THEN ret(p)
@@ -57,12 +59,15 @@ FCas(p) == keepH /\ pc[p] = "f_cas" /\ keepT /\ UNCHANGED <<dl, probe>>
 CLoad(p) == keepH /\ pc[p] = "c_load" /\ load(p) /\ UNCHANGED <<st, dl, probe>>
             /\ IF ~st.b THEN ret(p) ELSE IF ~st.a THEN goto(p, "c_load") ELSE goto(p, "c_clear")
 CClear(p) == keepH /\ pc[p] = "c_clear" /\ dl' = "none" /\ goto(p, "c_store") /\ UNCHANGED <<st, tmp, probe>>
+\* the socket refuses: the last writer resets the state word all the same (and reports the error) - nobody must be left spinning
+\* on a blocked bit that no one is there to clear
+CClearFail(p) == pc[p] = "c_clear" /\ ClearMayFail /\ ~cfail /\ cfail' = TRUE /\ goto(p, "c_store") /\ UNCHANGED <<st, dl, tmp, probe, hit, spur>>
 CStore(p) == keepH /\ pc[p] = "c_store" /\ st' = S0 /\ ret(p) /\ UNCHANGED <<dl, tmp, probe>>
 
 \* ---- aborter: abortWrite
 ALoad(p) == keepH /\ pc[p] = "a_load" /\ load(p) /\ UNCHANGED <<st, dl, probe>>
             /\ IF st.b \/ st.n = 0 THEN goto(p, "done") ELSE goto(p, "a_cas")
-ACas(p) == pc[p] = "a_cas" /\ keepT /\ UNCHANGED <<dl, probe, spur>>
+ACas(p) == pc[p] = "a_cas" /\ keepT /\ UNCHANGED <<dl, probe, spur, cfail>>
             /\ IF st = tmp[p] THEN /\ st' = [st EXCEPT !.b = TRUE] /\ goto(p, "a_arm")
                                    /\ hit' = hit \cup {w \in Writers : pc[w] \in InFlightPCs}
                               ELSE UNCHANGED <<st, hit>> /\ goto(p, "a_load")
@@ -85,10 +90,10 @@ AllDone == \A p \in Procs : pc[p] = "done"
 \* ---- a later write by any user, after everybody has returned (atomic: nobody else is running)
 Probe == /\ AllDone /\ probe = "none"
          /\ probe' = IF st.b THEN "stuck" ELSE IF dl = "now" THEN "timeout" ELSE "ok"
-         /\ UNCHANGED <<st, dl, pc, tmp, left, hit, spur>>
+         /\ UNCHANGED <<st, dl, pc, tmp, left, hit, spur, cfail>>
 
 WStep(p) == WLoad(p) \/ WCas(p) \/ WWriteOk(p) \/ WWriteTmo(p) \/ FLoad(p) \/ FCasLast(p) \/ FCas(p)
-            \/ CLoad(p) \/ CClear(p) \/ CStore(p)
+            \/ CLoad(p) \/ CClear(p) \/ CClearFail(p) \/ CStore(p)
 AStep(p) == ALoad(p) \/ ACas(p) \/ AArmOk(p) \/ AArmFail(p) \/ SLoad(p) \/ SCas(p) \/ XLoad(p) \/ XCas(p)
 Next == (\E p \in Writers : WStep(p)) \/ (\E p \in Aborters : AStep(p)) \/ Probe
         \/ (AllDone /\ probe # "none" /\ UNCHANGED vars)
@@ -98,13 +103,14 @@ Spec == Init /\ [][Next]_vars
 
 \* ---- C13 predicates on the model (the monitor MuxWriteMon states the same over observations)
 InFlight == Cardinality({p \in Writers : pc[p] \in InFlightPCs})
-Clean == AllDone => (st = S0 /\ dl = "none")
+Clean == AllDone => (st = S0 /\ (dl = "none" \/ cfail))
 \* n counts exactly the writers between start and finish (while the blocked last writer clears, n is already 0)
 CountExact == st.n = InFlight
-LaterWritesSucceed == probe \in {"none", "ok"}
+\* (a socket that refused to clear its deadline times the later write out; the mux never makes it wait for ever)
+LaterWritesSucceed == probe \in {"none", "ok"} \/ (cfail /\ probe = "timeout")
 \* nobody's write fails with a timeout unless an abort took effect while that write was in flight
 NoSpuriousTimeout == ~spur
 \* the deadline is armed only under the blocked bit
-ArmedOnlyBlocked == (dl = "now" \/ st.a) => st.b
+ArmedOnlyBlocked == ((dl = "now" /\ ~cfail) \/ st.a) => st.b
 NoStuckWriter == <>AllDone
 ====
